@@ -1,10 +1,10 @@
 """C05 - cut commits the clause and nothing else."""
-from .. import bodies
+from .. import bodies, impl
 from . import treecheck
 
 ID = 'C05'
 LEVEL = 'model_checking'
-RULE = ('every clause body tree with <= N operators from , ; -> \\+ over the 8 leaves '
+RULE = ('(deep cut: 10..23 guard goals, a cut, then every body of <= 2 operators with a disjunction / negation / if-then-else; clauses the compiler rejects are skipped) ' 'every clause body tree with <= N operators from , ; -> \\+ over the 8 leaves '
         '{true fail ! z o(Vi) m(Vi) m(V1) k(Vi)} that contains at least one cut in a transparent '
         'position (or a call of k/1, a predicate whose own clause ends in a cut) and none in an opaque one, placed in the context p(..):-BODY. p(9..). '
         'c(..,Z):-m(Z),p(..). plus a dynamic fact p(7..), in 8 context variants (two of them with the clause variables inside a structure w(V1..Vn) that is the clause\'s only argument and is put together before the goals bind them): with / without a two-solution goal to '
@@ -24,7 +24,7 @@ def bounds(tier):
 def plan(tier):
     maxops = 2 if tier == 'quick' else 3
     return ([(k, treecheck.NSHARDS, maxops, tier) for k in range(treecheck.NSHARDS)] + [('heads', k, 32, tier) for k in range(32)]
-            + [('focus', k, 32, tier) for k in range(32)] + [('wide', k, 8, tier) for k in range(8)] + [('tfocus', k, 16, tier) for k in range(16)] + [('jfocus', k, 16, tier) for k in range(16)])
+            + [('focus', k, 32, tier) for k in range(32)] + [('wide', k, 8, tier) for k in range(8)] + [('tfocus', k, 16, tier) for k in range(16)] + [('jfocus', k, 16, tier) for k in range(16)] + [('deepcut', k, 16, tier) for k in range(16)])
 
 
 # ---- deeper bodies over a cut-focused alphabet ----------------------------------------------
@@ -89,6 +89,40 @@ def run_jfocus(spec):
                 if res['status'] == 'violation':
                     res['sig'] = 'callee-with-same-name-at-other-arity:' + res['sig']
                 account(acc, ('J', idx, vi), case, res, key='%s %r' % (bodies.show_tree(t), sorted(var.items())))
+    return acc
+
+
+# ---- a cut deep inside a long clause -------------------------------------------------------------------------
+# N guard goals o(V1) .. o(VN), a cut, then every small body with a disjunction / negation / if-then-else: for every
+# N from 10 up to the size at which the compiler rejects the clause (such programs are skipped - if the compiler
+# accepts them, they mean what they say)
+def run_deepcut(spec):
+    from ..diff import account
+    from ..runner import Acc
+    from ..terms import show_program
+    _, k, n, tier = spec
+    acc = Acc()
+    tails = [t for m in (1, 2) for t in bodies.trees(m, ['m', 'z', 'o']) if bodies.ops_used(t) & {';', '->', '\\+'} and not bodies.cut_positions(t)[1]]
+    idx = 0
+    for ng in range(10, 24):
+        for t in tails:
+            idx += 1
+            if idx % n != k:
+                continue
+            tree = (',', ('L', '!'), t)
+            for _ in range(ng):
+                tree = (',', ('L', 'o'), tree)
+            case = treecheck.tree_case(tree)
+            try:
+                impl.compile_text(case.describe()['scripts'][1]['text'])
+            except Exception as e:  # noqa: BLE001
+                acc.n['evaluations'] += 1
+                acc.skipped['rejected by the compiler (%s)' % type(e).__name__] += 1
+                continue
+            res = case.run()
+            if res['status'] == 'violation':
+                res['sig'] = 'deep-cut:' + res['sig']
+            account(acc, ('D', idx), case, res, key='deepcut|%d|%s' % (ng, bodies.show_tree(t)))
     return acc
 
 
@@ -226,6 +260,8 @@ def select(t):
 def run_shard(spec):
     if spec[0] == 'heads':
         return run_heads(spec)
+    if spec[0] == 'deepcut':
+        return run_deepcut(spec)
     if spec[0] == 'focus':
         return run_focus(spec)
     if spec[0] == 'wide':
